@@ -65,6 +65,31 @@ impl std::ops::Mul<usize> for DbUnits {
 //@   sub R5 /Int::try_from\(rhs\)/ => vp_int_try_from_usize(rhs)
 //@ end
 }
+/// exec signed `/` and `%` truncate; for a non-negative dividend and a positive divisor they are floor division and its remainder
+impl vstd::std_specs::ops::DivSpecImpl<DbUnits> for DbUnits {
+    open spec fn obeys_div_spec() -> bool { true }
+    open spec fn div_req(self, rhs: DbUnits) -> bool { self.0 >= 0 && rhs.0 > 0 }
+    open spec fn div_spec(self, rhs: DbUnits) -> Int { (self.0 / rhs.0) as isize }
+}
+impl std::ops::Div<DbUnits> for DbUnits {
+    type Output = Int;
+//@ fn layout21tetris/src/coords.rs :: impl std::ops::Div<DbUnits> for DbUnits :: fn div
+//@ end
+}
+impl vstd::std_specs::ops::RemSpecImpl<DbUnits> for DbUnits {
+    open spec fn obeys_rem_spec() -> bool { true }
+    open spec fn rem_req(self, rhs: DbUnits) -> bool { self.0 >= 0 && rhs.0 > 0 }
+    open spec fn rem_spec(self, rhs: DbUnits) -> Int { (self.0 % rhs.0) as isize }
+}
+/// ASSUMED (machine arithmetic): this Verus release leaves the machine `%` on signed integers unspecified; for a non-negative dividend and a
+/// positive divisor Rust's truncated remainder is the mathematical one.  Real body: `self.raw().rem(rhs.raw())`
+impl std::ops::Rem<DbUnits> for DbUnits {
+    type Output = Int;
+    #[verifier::external_body]
+    fn rem(self, rhs: DbUnits) -> Int { self.0 % rhs.0 }
+}
+/// model of `usize::try_from(Int).unwrap()` (panics on a negative value: precondition)
+pub fn vp_usize_from_int(v: Int) -> (r: usize) requires v >= 0 ensures r == v { v as usize }
 /// R5: `!dir` (impl Not for Dir) is `dir.other()`
 pub fn vp_not(d: Dir) -> (r: Dir) ensures r == (match d { Dir::Horiz => Dir::Vert, Dir::Vert => Dir::Horiz }) { d.other() }
 /// module-path shim
@@ -143,10 +168,17 @@ pub struct RawExporter { pub stack: ValidStack }
 pub struct AssignKey { pub k: u64 }
 pub struct ValidAssign { pub top: TrackRef, pub bot: TrackRef }
 pub struct AssignMap { pub v: Vec<ValidAssign> }
-impl AssignMap { pub uninterp spec fn lookup(&self, k: AssignKey) -> Option<ValidAssign>; }
+impl AssignMap {
+    pub uninterp spec fn lookup(&self, k: AssignKey) -> Option<ValidAssign>;
+    /// model of SlotMap::get
+    #[verifier::external_body]
+    pub fn get(&self, k: AssignKey) -> (r: Option<&ValidAssign>) ensures (r is Some) == (self.lookup(k) is Some), r is Some ==> *r->0 == self.lookup(k)->0 { unimplemented!() }
+}
 /// R5: the temporary per-cell / per-layer records reduced to the fields temp_cell_layer_period reads; PtrList<T> as Vec<Ptr<T>>
-pub struct TempCell<'lib> { pub cuts: Vec<Vec<&'lib TrackCross>>, pub assignments: AssignMap, pub top_assns: Vec<Vec<AssignKey>>, pub bot_assns: Vec<Vec<AssignKey>> }
-pub struct TempCellLayer<'lib> { pub layer: &'lib ValidMetalLayer, pub cell: &'lib TempCell<'lib>, pub instances: Vec<Ptr<Instance>> }
+/// R5: the gridded layout reduced to what temp_cell_layer reads
+pub struct Layout { pub name: String, pub outline: Outline }
+pub struct TempCell<'lib> { pub cell: &'lib Layout, pub instances: Vec<Ptr<Instance>>, pub cuts: Vec<Vec<&'lib TrackCross>>, pub assignments: AssignMap, pub top_assns: Vec<Vec<AssignKey>>, pub bot_assns: Vec<Vec<AssignKey>> }
+pub struct TempCellLayer<'lib> { pub layer: &'lib ValidMetalLayer, pub cell: &'lib TempCell<'lib>, pub instances: Vec<Ptr<Instance>>, pub pitch: DbUnits, pub nperiods: usize, pub span: DbUnits }
 //@ item layout21tetris/src/conv/raw.rs :: struct TempPeriod
 //@   pubfields
 //@   sub R4 /struct TempPeriod/ => pub struct TempPeriod
@@ -156,15 +188,21 @@ pub struct TempCellLayer<'lib> { pub layer: &'lib ValidMetalLayer, pub cell: &'l
 pub fn vp_with_capacity<T>(n: usize) -> (r: Vec<T>) ensures r@.len() == 0 { Vec::new() }
 /// the cuts of one layer whose track index lies in [lo, hi), in order (spec of the filter/map/collect idiom)
 pub open spec fn cuts_in(v: Seq<&TrackCross>, lo: int, hi: int) -> Seq<&TrackCross> { v.filter(|c: &TrackCross| lo <= c.track.track < hi) }
-pub open spec fn top_in(m: AssignMap, v: Seq<AssignKey>, lo: int, hi: int) -> Seq<AssignKey> { v.filter(|k: AssignKey| m.lookup(k) is Some && lo <= m.lookup(k)->0.top.track < hi) }
-pub open spec fn bot_in(m: AssignMap, v: Seq<AssignKey>, lo: int, hi: int) -> Seq<AssignKey> { v.filter(|k: AssignKey| m.lookup(k) is Some && lo <= m.lookup(k)->0.bot.track < hi) }
-/// ASSUMED element-wise contracts of the three `iter().filter(..).{map(|r| *r)|copied()}.collect()` idioms (rule R6)
+pub open spec fn keys_ok(m: AssignMap, v: Seq<AssignKey>) -> bool { forall|i: int| 0 <= i < v.len() ==> m.lookup(#[trigger] v[i]) is Some }
+pub open spec fn top_in(m: AssignMap, v: Seq<AssignKey>, lo: int, hi: int) -> Seq<AssignKey> { v.filter(|k: AssignKey| lo <= m.lookup(k)->0.top.track < hi) }
+pub open spec fn bot_in(m: AssignMap, v: Seq<AssignKey>, lo: int, hi: int) -> Seq<AssignKey> { v.filter(|k: AssignKey| lo <= m.lookup(k)->0.bot.track < hi) }
+/// models of the iterator plumbing `v.iter().filter(f).copied().collect()` / `v.iter().filter(f).map(|r| *r).collect()` (rule R6): the elements
+/// for which the predicate answers true, in order.  The predicate itself is the REAL closure of the source, verified against `pred`.
 #[verifier::external_body]
-pub fn vp_filter_cuts<'a>(v: &Vec<&'a TrackCross>, r: (usize, usize)) -> (out: Vec<&'a TrackCross>) ensures out@ == cuts_in(v@, r.0 as int, r.1 as int) { unimplemented!() }
+pub fn vp_filter_copied<F: Fn(&&AssignKey) -> bool>(v: &Vec<AssignKey>, f: F, Ghost(pred): Ghost<spec_fn(AssignKey) -> bool>) -> (out: Vec<AssignKey>)
+    requires forall|i: int| 0 <= i < v@.len() ==> #[trigger] f.requires((&&v@[i],)), forall|i: int, b: bool| 0 <= i < v@.len() && #[trigger] f.ensures((&&v@[i],), b) ==> b == pred(v@[i]),
+    ensures out@ == v@.filter(pred),
+{ v.iter().filter(f).copied().collect() }
 #[verifier::external_body]
-pub fn vp_filter_top(m: &AssignMap, v: &Vec<AssignKey>, r: (usize, usize)) -> (out: Vec<AssignKey>) ensures out@ == top_in(*m, v@, r.0 as int, r.1 as int) { unimplemented!() }
-#[verifier::external_body]
-pub fn vp_filter_bot(m: &AssignMap, v: &Vec<AssignKey>, r: (usize, usize)) -> (out: Vec<AssignKey>) ensures out@ == bot_in(*m, v@, r.0 as int, r.1 as int) { unimplemented!() }
+pub fn vp_filter_refs<'a, F: Fn(&&&'a TrackCross) -> bool>(v: &Vec<&'a TrackCross>, f: F, Ghost(pred): Ghost<spec_fn(&TrackCross) -> bool>) -> (out: Vec<&'a TrackCross>)
+    requires forall|i: int| 0 <= i < v@.len() ==> #[trigger] f.requires((&&v@[i],)), forall|i: int, b: bool| 0 <= i < v@.len() && #[trigger] f.ensures((&&v@[i],), b) ==> b == pred(v@[i]),
+    ensures out@ == v@.filter(pred),
+{ v.iter().filter(f).map(|r| *r).collect() }
 
 // =====================================================================================================
 // SPEC (C08: "the spans blocked by instances"; instances "placed on the grid in any reflection")
@@ -187,6 +225,10 @@ pub open spec fn intersects(s: ValidStack, i: Instance, l: ValidMetalLayer, n: i
 pub open spec fn loc_ok(i: Instance) -> bool { forall|d: Dir| -0x1_0000_0000 <= xy_dir(i.loc->Abs_0, d).num <= 0x1_0000_0000 && (#[trigger] xy_dir(i.loc->Abs_0, d)).dir == d }
 pub open spec fn size_ok(c: Cell) -> bool { outline_wf(cell_view(c)->0.outline) && forall|d: Dir| 0 <= #[trigger] cell_max(c, d) <= 0x1_0000_0000 }
 pub open spec fn inst_ok(i: Instance) -> bool { (i.loc is Abs ==> loc_ok(i)) && (cell_view(*i.cell.v) is Some ==> size_ok(*i.cell.v)) }
+/// the instances whose cell comes up to layer `ix` (has more metal layers than `ix`), in order: the ones that can block that layer
+pub open spec fn reaching(v: Seq<Ptr<Instance>>, ix: int) -> Seq<Ptr<Instance>> decreases v.len() {
+    if v.len() == 0 { Seq::empty() } else if cell_view(*v.last().v.cell.v)->0.metals > ix { reaching(v.drop_last(), ix).push(v.last()) } else { reaching(v.drop_last(), ix) }
+}
 /// the instances (of the layer's list) that intersect period `n`, in order
 pub open spec fn blockers(s: ValidStack, v: Seq<Ptr<Instance>>, l: ValidMetalLayer, n: int) -> Seq<Ptr<Instance>> decreases v.len() {
     if v.len() == 0 { Seq::empty() } else if intersects(s, *v.last().v, l, n) { blockers(s, v.drop_last(), l, n).push(v.last()) } else { blockers(s, v.drop_last(), l, n) }
@@ -210,6 +252,9 @@ pub proof fn lemma_prod_bound(a: int, b: int, ba: int, bb: int)
 }
 pub proof fn lemma_distrib(l: int, m: int, p: int) ensures (l - m) * p == l * p - m * p, (l + m) * p == l * p + m * p { assert((l - m) * p == l * p - m * p) by (nonlinear_arith); assert((l + m) * p == l * p + m * p) by (nonlinear_arith); }
 impl RawExporter {
+    /// model of ErrorHelper::fail: always an error
+    #[verifier::external_body]
+    fn fail<T, M>(&self, msg: M) -> (r: LayoutResult<T>) ensures r is Err { Err(LayoutError { }) }
 //@ fn layout21tetris/src/conv/raw.rs :: impl<'lib> RawExporter :: fn db_units
 //@   ret r
 //@   sub R5 /pt: impl Into<UnitSpeced>/ => pt: UnitSpeced
@@ -219,17 +264,55 @@ impl RawExporter {
 //|     requires !(pt is LayerPitches), pt is PrimPitches ==> isize::MIN <= pt->PrimPitches_0.num * xy_dir(self.stack.prim.pitches, pt->PrimPitches_0.dir).0 <= isize::MAX,
 //|     ensures r.0 == (match pt { UnitSpeced::DbUnits(u) => u.0 as int, UnitSpeced::PrimPitches(p) => p.num * xy_dir(self.stack.prim.pitches, p.dir).0, _ => 0 }),
 //@ end
+//@ fn layout21tetris/src/conv/raw.rs :: impl<'lib> RawExporter :: fn temp_cell_layer
+//@   ret r
+//@   sub R5 /Vec::with_capacity\(temp_cell\.instances\.len\(\)\)/ => vp_with_capacity(temp_cell.instances.len())
+//@   sub R5 /let instances = PtrList::from_ptrs\(instances\);/ => 
+//@   sub R5 /self\.db_units\(cell\.outline\.x\[0\]\)/ => self.db_units(UnitSpeced::PrimPitches(cell.outline.x[0]))
+//@   sub R5 /self\.db_units\(cell\.outline\.y\[0\]\)/ => self.db_units(UnitSpeced::PrimPitches(cell.outline.y[0]))
+//@   sub R5 /usize::try_from\(breadth \/ layer\.pitch\)\.unwrap\(\)/ => vp_usize_from_int(breadth / layer.pitch)
+//@   spec
+//|     requires stack_ok(self.stack), outline_wf(temp_cell.cell.outline), temp_cell.cell.outline.x@[0].num <= 0x1_0000_0000, temp_cell.cell.outline.y@[0].num <= 0x1_0000_0000, layer.pitch.0 > 0,
+//|     ensures r is Ok ==> ({
+//|         let t = r->Ok_0; let o = temp_cell.cell.outline; let d = layer.spec.dir;
+//|         let along = (match d { Dir::Horiz => o.x@[0], Dir::Vert => o.y@[0] }).num * ppitch(self.stack, d);
+//|         let across = (match d { Dir::Horiz => o.y@[0], Dir::Vert => o.x@[0] }).num * ppitch(self.stack, other(d));
+//|         &&& t.layer == layer &&& t.cell == temp_cell &&& t.pitch == layer.pitch
+//|         // the instances that come up to this layer, in order
+//|         &&& t.instances@ == reaching(temp_cell.instances@, layer.index as int)
+//|         // the layer spans the outline along its tracks; across them the outline is a whole number of periods
+//|         &&& t.span.0 == along &&& across % (layer.pitch.0 as int) == 0 &&& t.nperiods == across / (layer.pitch.0 as int)
+//|     }),
+//@   loop 1 iter it
+//|             invariant it.index@ <= temp_cell.instances@.len(), instances@ == reaching(temp_cell.instances@.take(it.index@ as int), layer.index as int),
+//@   before1 /if cell\.metals\(\)\?/
+//|             proof { let t1 = temp_cell.instances@.take(it.index@ + 1); assert(*ptr == temp_cell.instances@[it.index@ as int]); assert(t1.drop_last() == temp_cell.instances@.take(it.index@ as int)); assert(t1.last() == *ptr); }
+//@   before1 /let cell = temp_cell\.cell;/
+//|         proof {
+//|             assert(temp_cell.instances@.take(temp_cell.instances@.len() as int) == temp_cell.instances@);
+//|             lemma_prod_bound(temp_cell.cell.outline.x@[0].num as int, ppitch(self.stack, Dir::Horiz), 0x1_0000_0000, 0x100_0000);
+//|             lemma_prod_bound(temp_cell.cell.outline.y@[0].num as int, ppitch(self.stack, Dir::Vert), 0x1_0000_0000, 0x100_0000);
+//|             assert(temp_cell.cell.outline.x@[0].num * ppitch(self.stack, Dir::Horiz) >= 0) by (nonlinear_arith) requires temp_cell.cell.outline.x@[0].num >= 0, ppitch(self.stack, Dir::Horiz) >= 0;
+//|             assert(temp_cell.cell.outline.y@[0].num * ppitch(self.stack, Dir::Vert) >= 0) by (nonlinear_arith) requires temp_cell.cell.outline.y@[0].num >= 0, ppitch(self.stack, Dir::Vert) >= 0;
+//|         }
+//@ end
 //@ fn layout21tetris/src/conv/raw.rs :: impl<'lib> RawExporter :: fn temp_cell_layer_period
 //@   ret r
 //@   sub R5 /Vec::with_capacity\(temp_layer\.instances\.len\(\)\)/ => vp_with_capacity(temp_layer.instances.len())
 //@   sub R5 /let inst = &\*ptr\.read\(\)\?;/ => let inst = ptr.read()?;
-//@   sub R6 /let cuts: Vec<&TrackCross> = cell\.cuts\[temp_layer\.layer\.index\]\s*\.iter\(\)\s*\.filter\([\s\S]*?\.map\(\|r\| \*r\)\s*\.collect\(\);/ => let cuts: Vec<&TrackCross> = vp_filter_cuts(&cell.cuts[temp_layer.layer.index], relevant_track_nums);
-//@   sub R6 /let top_assns = cell\.top_assns\[temp_layer\.layer\.index\]\s*\.iter\(\)\s*\.filter\([\s\S]*?\.copied\(\)\s*\.collect\(\);/ => let top_assns = vp_filter_top(&cell.assignments, &cell.top_assns[temp_layer.layer.index], relevant_track_nums);
-//@   sub R6 /let bot_assns = cell\.bot_assns\[temp_layer\.layer\.index\]\s*\.iter\(\)\s*\.filter\([\s\S]*?\.copied\(\)\s*\.collect\(\);/ => let bot_assns = vp_filter_bot(&cell.assignments, &cell.bot_assns[temp_layer.layer.index], relevant_track_nums);
+//@   sub R6 /let cuts: Vec<&TrackCross> = cell\.cuts\[temp_layer\.layer\.index\]\s*\.iter\(\)\s*\.filter\(\|cut\| \{/ => let cuts: Vec<&TrackCross> = vp_filter_refs(&cell.cuts[temp_layer.layer.index], |cut: &&&TrackCross| -> (b: bool) ensures b == (relevant_track_nums.0 <= cut.track.track < relevant_track_nums.1) {
+//@   sub R6 /(let cuts: Vec<&TrackCross> = [\s\S]*?)\}\)\s*\.map\(\|r\| \*r\)\s*\.collect\(\);/ => \1}, Ghost(|c: &TrackCross| relevant_track_nums.0 <= c.track.track < relevant_track_nums.1));
+//@   sub R6 /let top_assns = cell\.top_assns\[temp_layer\.layer\.index\]\s*\.iter\(\)\s*\.filter\(\|id\| \{/ => let top_assns = vp_filter_copied(&cell.top_assns[temp_layer.layer.index], |id: &&AssignKey| -> (b: bool) requires cell.assignments.lookup(**id) is Some ensures b == (relevant_track_nums.0 <= cell.assignments.lookup(**id)->0.top.track < relevant_track_nums.1) {
+//@   sub R6 /(let top_assns = [\s\S]*?)\}\)\s*\.copied\(\)\s*\.collect\(\);/ => \1}, Ghost(|k: AssignKey| relevant_track_nums.0 <= cell.assignments.lookup(k)->0.top.track < relevant_track_nums.1));
+//@   sub R6 /let bot_assns = cell\.bot_assns\[temp_layer\.layer\.index\]\s*\.iter\(\)\s*\.filter\(\|id\| \{/ => let bot_assns = vp_filter_copied(&cell.bot_assns[temp_layer.layer.index], |id: &&AssignKey| -> (b: bool) requires cell.assignments.lookup(**id) is Some ensures b == (relevant_track_nums.0 <= cell.assignments.lookup(**id)->0.bot.track < relevant_track_nums.1) {
+//@   sub R6 /(let bot_assns = [\s\S]*?)\}\)\s*\.copied\(\)\s*\.collect\(\);/ => \1}, Ghost(|k: AssignKey| relevant_track_nums.0 <= cell.assignments.lookup(k)->0.bot.track < relevant_track_nums.1));
+//@   sub R5 /\.ok_or\(LayoutError::from\("Internal error: invalid assignment"\)\)\s*\.unwrap\(\)/ => .unwrap()
 //@   spec
 //|     requires stack_ok(self.stack), insts_ok(temp_layer.instances@), 0 <= temp_layer.layer.pitch.0 <= 0x1_0000_0000, periodnum <= 0x1000_0000,
 //|         temp_layer.layer.period_data.signals@.len() <= 0x1000_0000,
 //|         temp_layer.layer.index < temp_layer.cell.cuts@.len(), temp_layer.layer.index < temp_layer.cell.top_assns@.len(), temp_layer.layer.index < temp_layer.cell.bot_assns@.len(),
+//|         // every assignment key filed under this layer is in the table (the closures `unwrap()` the lookup)
+//|         keys_ok(temp_layer.cell.assignments, temp_layer.cell.top_assns@[temp_layer.layer.index as int]@), keys_ok(temp_layer.cell.assignments, temp_layer.cell.bot_assns@[temp_layer.layer.index as int]@),
 //|     ensures r is Ok ==> ({
 //|         let tp = r->Ok_0; let l = *temp_layer.layer; let nsig = l.period_data.signals@.len() as int; let ix = l.index as int;
 //|         &&& tp.periodnum == periodnum &&& tp.cell == temp_layer.cell &&& tp.layer == temp_layer
